@@ -231,6 +231,7 @@ fn all_cases(prop: &str, rng: &mut Rng, count: usize, thorough: bool) -> Vec<Cas
 fn plain_cases(prop: &str, rng: &mut Rng, count: usize, thorough: bool) -> Vec<(Value, Value, String)> {
     all_cases(prop, rng, count, thorough)
         .into_iter()
+        .filter(|c| !c.tag.starts_with("known:"))   // listed known findings are exercised at the library only
         .filter_map(|c| match c.work {
             Work::Apply { rule, data } => Some((rule, data, c.tag)),
             _ => None,
